@@ -131,7 +131,7 @@ def gen_phase1(c, cat):
     reps = 400 if full else 40
     for ty, v, k in [("int", "5", good[0]), ("str", "", good[2]), ("json:bool", "#1", good[1])]:
         for _ in range(reps):
-            cases.append(Case("V %s=%s 1 %s" % (ty, v, hx(k)), "V", "C18:nonce", ty=ty, val=v, key=k, rep=(ty, v, k)))
+            cases.append(Case("V %s=%s 1 %s" % (ty, v, hx(k)), "V", ("C18:json:value" if ty.startswith("json") else "C18:codec:" + ty), ty=ty, val=v, key=k, rep=(ty, v, k)))
     # (b) Scan of plaintexts sealed by the harness itself: exact / shorter / longer / random
     for ty in NUM:
         w = WIDTH[ty]
@@ -537,7 +537,8 @@ def main(tier):
             rep += field(o, "jdec") == cat[(cs.meta["ty"], cs.meta["rt"])] + ":1"
     c.cov["json_representable_values"] = {"marshalable": tot, "roundtrip_through_encoding_json": rep}
     # cross-check the OCaml extraction against vm_compute inside Coq on a sample
-    pool = [(ml, mo) for ml, mo in zip(mlines, model) if ml.startswith("S ") and len(ml) < 600] + list(zip(codec_lines, codec_got))
+    pool = [(ml, mo) for ml, mo in zip(mlines, model) if ml.startswith("S ") and not ml.startswith("S json") and len(ml) < 600] + \
+        list(zip(codec_lines, codec_got))
     r2 = random.Random(c.seed + 1)
     items = [x for x in (cross_item(ml, mo) for ml, mo in r2.sample(pool, min(300, len(pool)))) if x]
     v = CROSS_PRELUDE + "  [" + ";\n   ".join(items) + "].\n" + \
